@@ -35,7 +35,11 @@ CLASSES = (
     "inside the table (negative values), user-supplied interpolator objects of any kind, arguments a hair (one ulp .. 1e-5 "
     "relative) outside a table, the caller's table or array edited in place AFTER the call / between two back-to-back "
     "calls, objects constructed with one setting and then called with another, inadmissible arguments through every "
-    "public entry point, maximum pressures far above the default range"
+    "public entry point, maximum pressures far above the default range, arrays handed out by user hooks / curves that the "
+    "user keeps, results and interpolators handed out earlier re-read after later calls, a second call drawing onto the same "
+    "Axes, every argument passed by keyword, python -O, repeated elements inside arrays, bit-evenly spaced grids, nearly dead "
+    "oils, mobility scale factors over 30 decades, extra / partly empty / relabelled columns and record labels, blank cells, "
+    "time grids evenly spaced with nt proportional to nx, schedules held until complete relaxation"
 )
 
 os.makedirs(OUT, exist_ok=True)
